@@ -74,8 +74,10 @@ func Start() *Engine {
 				}
 			case id := <-e.removeWatcher:
 				logrus.Info("Remove watcher")
-				watchers[id].close()
-				delete(watchers, id)
+				if w, has := watchers[id]; has {
+					w.close()
+					delete(watchers, id)
+				}
 			case req := <-e.updateDB:
 				logrus.Info("Update DB")
 				logrus.Infof("-> %#v", req.expr)
